@@ -598,7 +598,7 @@ def _evaluate_nomodes(ctx, case):
 
 
 from vlib import envmodes  # noqa: E402
-evaluate = envmodes.with_modes(_evaluate_nomodes, warn=lambda case: True)
+evaluate = envmodes.with_modes(_evaluate_nomodes, warn=lambda case: True, debug=lambda case: True, share_debug=5)
 
 
 # ----------------------------------------------------------------------
